@@ -80,7 +80,7 @@ TOL_GEN = F(1, 10**9)
 SCALE = 2**20
 
 
-SCALE_BASES = [(2**20, 2**12), (2**20, 2**12), (2**10, 2**8), (0, 2**30)]
+SCALE_BASES = [(2**20, 2**12), (2**20, 2**12), (2**20, 2**12), (2**10, 2**8), (0, 2**30)]
 
 
 def scale_value(rng, base=None):
